@@ -529,6 +529,12 @@ class Unit:
                 if spec.get('invariant'):
                     lines.append(('gen', '\n            invariant\n'))
                     for i, inv in enumerate(spec['invariant']):
+                        if isinstance(inv, tuple) and len(inv) == 3:
+                            # (label, text, identifier): a linking invariant about an implementation temporary; only emitted while
+                            # the function body still has that temporary (so that removing it does not make the unit ill-formed)
+                            if not re.search(r'\b' + re.escape(inv[2]) + r'\b', text):
+                                continue
+                            inv = inv[:2]
                         lab, t = inv if isinstance(inv, tuple) else (f"inv{i}", inv)
                         cid = f"{qual}/loop{ordinal}/{lab}"
                         lines.append((cid, f"                {one_line(t)},\n"))
